@@ -390,16 +390,38 @@ func ruleC10NewCryptoKeyWipes(c *Ctx) {
 	key := f.Params[3]
 	var newCalls []ssa.Instruction
 	allInstrs(f, func(i ssa.Instruction) {
-		if invokeIs(i, pkgSec, "SecretFactory", "New") && strip(callOf(i).Args[0]) == key {
+		if invokeIs(i, pkgSec, "SecretFactory", "New") && (strip(callOf(i).Args[0]) == ssa.Value(key) || resolve(callOf(i).Args[0]) == ssa.Value(key)) {
 			newCalls = append(newCalls, i)
 		}
 	})
+	// a deferred closure that wipes the key whenever the named error result is non-nil covers every failing exit
+	var errWiped *ssa.Alloc
+	for _, e := range errGuardedDefers(f) {
+		for _, slot := range slotsHolding(f, key) {
+			if w, _ := e.wipesOnError(slot); w && e.D.Block() == f.Blocks[0] {
+				errWiped = e.ErrSlot
+			}
+		}
+	}
 	ok, tr := mustPass(f.Blocks[0], 0, func(i ssa.Instruction) bool {
 		arg, isW := wipeArg(i)
-		return isW && strip(arg) == key
+		return isW && (strip(arg) == ssa.Value(key) || resolve(arg) == ssa.Value(key))
 	}, func(from, to *ssa.BasicBlock) bool {
 		for _, fct := range edgeFacts(from, to) {
+			if x, isNil, isT := nilTest(fct); isT && !isNil && errWiped != nil {
+				if ld, isL := strip(x).(*ssa.UnOp); isL && ld.Op == token.MUL && ld.X == ssa.Value(errWiped) {
+					return true // the error result is non-nil from here on: the deferred closure wipes the key
+				}
+			}
 			if x, isNil, isT := nilTest(fct); isT && isNil {
+				// the error of factory.New read back from the slot it was stored into
+				if ld, isL := strip(x).(*ssa.UnOp); isL && ld.Op == token.MUL {
+					if a, isA := ld.X.(*ssa.Alloc); isA {
+						if st := lastDominatingStore(a, ld); st != nil {
+							x = st.Val
+						}
+					}
+				}
 				if ex, isEx := strip(x).(*ssa.Extract); isEx {
 					for _, nc := range newCalls {
 						if ex.Tuple == nc.(ssa.Value) && instrDominates(nc, from.Instrs[len(from.Instrs)-1]) {
@@ -597,6 +619,23 @@ func ruleC10AccessorErrorDiscards(c *Ctx) {
 				ex1, ok1 := r1.(*ssa.Extract)
 				if !(ok0 && ok1 && ex0.Tuple == ssa.Value(cv) && ex1.Tuple == ssa.Value(cv)) {
 					forwards = false
+				}
+			}
+			if forwards && f.Name() != "WithBytesFunc" {
+				// `defer func() { if err != nil { MemClr(ret); ret = nil } }()` over named results does the same job
+				for _, e := range errGuardedDefers(f) {
+					if !instrDominates(e.D, cv) {
+						continue
+					}
+					for _, slot := range slotsHolding(f, data) {
+						if w, nl := e.wipesOnError(slot); w && nl && isResultSlot(f, slot) {
+							forwards = false
+							c.ok(construct, u.ipos(i), "deferred closure wipes and nils the data result whenever the error result is non-nil")
+						}
+					}
+				}
+				if !forwards {
+					return
 				}
 			}
 			if forwards {
